@@ -113,6 +113,8 @@ def run_and_validate(rep, cases, label, timeout=2400, variant="gcc"):
     rc, recs, out = vlib.run_driver(exe, [cpath, tpath], timeout=timeout)
     if rc != 0 or not any(r.get("summary") for r in recs):
         return {"crashed": True, "rc": rc, "out": out[-1500:], "trace_path": tpath, "cases_path": cpath}
+    if not os.path.exists(tpath) or os.path.getsize(tpath) == 0:      # the cases ran but not a single hook fired
+        return {"crashed": True, "rc": rc, "out": "the driver completed but recorded no event at all: " + out[-800:], "trace_path": tpath, "cases_path": cpath}
     res = validate_trace(tpath, label)
     res["cases_path"] = cpath
     res["crashed"] = False
